@@ -17,18 +17,51 @@ def fn_hash(fn):
     return hashlib.sha256(ast.dump(f).encode()).hexdigest()[:16]
 
 
+def _strip_doc(f):
+    for node in ast.walk(f):
+        if isinstance(node, (ast.FunctionDef, ast.AsyncFunctionDef)) and node.body and isinstance(node.body[0], ast.Expr) \
+                and isinstance(node.body[0].value, ast.Constant) and isinstance(node.body[0].value.value, str):
+            node.body = node.body[1:] or [ast.Pass()]
+    return hashlib.sha256(ast.dump(f).encode()).hexdigest()[:16]
+
+
+_FILES = {}
+
+
+def file_hash(mod, name):
+    """Hash of `name` (dotted path of class/def names) read from the module's file as it is on disk now.  Unlike
+    inspect.getsource on the imported object this cannot mix line numbers of an older import with a newer file."""
+    import importlib.util
+    spec = importlib.util.find_spec(mod)
+    if spec.origin not in _FILES:
+        with open(spec.origin) as fh:
+            _FILES[spec.origin] = ast.parse(fh.read())
+    node = _FILES[spec.origin]
+    for part in name.split("."):
+        nxt = [n for n in node.body if isinstance(n, (ast.FunctionDef, ast.AsyncFunctionDef, ast.ClassDef))
+               and n.name == part]
+        if len(nxt) != 1:
+            raise LookupError(part)
+        node = nxt[0]
+    import copy
+    return _strip_doc(copy.deepcopy(node))
+
+
 def check(pins):
     """pins: list of (module, qualname, expected_hash).  Returns list of (name, got, expected) mismatches."""
     import importlib
     bad = []
     for mod, name, exp in pins:
         try:
-            obj = importlib.import_module(mod)
-            for part in name.split("."):
-                obj = getattr(obj, part)
-            got = fn_hash(obj)
-        except Exception as e:  # noqa
-            got = f"missing: {type(e).__name__}"
+            got = file_hash(mod, name)
+        except Exception:  # noqa
+            try:
+                obj = importlib.import_module(mod)
+                for part in name.split("."):
+                    obj = getattr(obj, part)
+                got = fn_hash(obj)
+            except Exception as e:  # noqa
+                got = f"missing: {type(e).__name__}"
         if got != exp:
             bad.append((f"{mod}.{name}", got, exp))
     return bad
